@@ -20,6 +20,6 @@ func runC16(c *core.Check) {
 	}
 	c.Extra["constants"] = consts
 	streamTLC(c, core.TLCRun{Module: "MC_C16", Consts: consts, Timeout: minutes(40), KeepVars: []string{"val"}}, func(st core.State) { c16.Handle(c, st) })
-	streamTLC(c, core.TLCRun{Module: "MC_Dec", Consts: map[string]string{"MaxSpecD": "0", "MaxItems": "2"}, Timeout: minutes(20), KeepVars: []string{"phase", "body"}},
+	streamTLC(c, core.TLCRun{Module: "MC_Dec", Parts: 4, Consts: map[string]string{"MaxSpecD": "0", "MaxItems": "2"}, Timeout: minutes(20), KeepVars: []string{"phase", "body"}},
 		func(st core.State) { c16.HandleArbitrary(c, st) })
 }
